@@ -172,6 +172,35 @@ pub fn gen_f32_corner(r: &mut Rng) -> Inst {
     Inst { courses, parts, rooms: Some(vec![room, second]) }
 }
 
+/// Room conflict of a full course while a smaller, under-filled course X (one fan, minimum 3–4, an
+/// instructor WITH own choices) fits the conflicting room now but not at its minimum: X is in the
+/// k-selection and in the "always" set of the room stage, i.e. it is put on the cancel list twice.
+pub fn gen_room_cancel_twice(r: &mut Rng) -> Inst {
+    let fa = 4 + r.usize(3);
+    let fb = 3 + r.usize(3);
+    let xmin = 3 + r.usize(2);
+    let mk = |i: usize, name: &str, mn: usize, instr: usize| CourseDump { index: i, dbid: 100 + i, name: name.into(), num_min: mn, num_max: 9,
+        instructors: vec![instr], room_factor: 1.0, room_offset: 0.0, fixed_course: false, hidden_participant_names: vec![] };
+    let courses = vec![mk(0, "A", 2, 0), mk(1, "B", 2, 1), mk(2, "X", xmin, 2)];
+    let mut parts = vec![
+        ParticipantDump { index: 0, dbid: 1000, name: "a0".into(), choices: vec![(1, 0), (2, 1)] },
+        ParticipantDump { index: 1, dbid: 1001, name: "b0".into(), choices: vec![(0, 0), (2, 1)] },
+        ParticipantDump { index: 2, dbid: 1002, name: "x0".into(), choices: vec![(0, 0), (1, 1)] },
+    ];
+    for (c, n) in [(0usize, fa), (1usize, fb), (2usize, 1usize)] {
+        for _ in 0..n {
+            let i = parts.len();
+            let others: Vec<usize> = (0..3).filter(|x| *x != c).collect();
+            let (o1, o2) = if r.chance(1, 2) { (others[0], others[1]) } else { (others[1], others[0]) };
+            parts.push(ParticipantDump { index: i, dbid: 1000 + i, name: format!("p{}", i), choices: vec![(c, 0), (o1, 1), (o2, 2)] });
+        }
+    }
+    // A (1 + fa people) gets the big room; B (1 + fb >= 4) collides with a room of 3; X (2 people now,
+    // 1 + xmin >= 4 at its minimum) fits 3 now but not at its minimum
+    let rooms = vec![fa + 4 + r.usize(2), 3, 3];
+    Inst { courses, parts, rooms: Some(rooms) }
+}
+
 /// An effective room size with a TINY positive fractional part (2^-10 … 2^-16, 1e-4 … 9e-4; through
 /// the offset or through the factor) and a room that is too small by exactly that fraction: the
 /// popular course must be shrunk by one. Any tolerance in the rounding ("- 1e-3") lets it through.
